@@ -16,6 +16,11 @@ pub enum POp {
     Set { f: usize, text: String },
     Remove { f: usize },
     Config { v: u32 },
+    /// set the identical text again (what didOpen / didSave of an unchanged file does)
+    Resubmit { f: usize },
+    /// set every live file again with its identical text (what a workspace reload does after a
+    /// configuration change)
+    ReloadAll,
 }
 
 #[derive(Serialize, Deserialize, Clone, Debug)]
@@ -71,6 +76,10 @@ const LINES: &[&str] = &[
     "\t",
     "local 变量 = 1",
     "import(\"x\")",
+    "local m = import(\"x\")",
+    "check(a)",
+    "local ok = check(a, \"msg\")",
+    "n += 1",
     "require \"x\"",
     "local m = require(\"x\")",
     "0x1p4 1e10 0xffULL 1i",
@@ -116,21 +125,32 @@ pub fn generate(seed: u64) -> ParseSpec {
     let mut ops = Vec::new();
     let mut last: Option<String> = None;
     for _ in 0..n {
-        match r.weighted(&[70, 10, 20]) {
+        match r.weighted(&[60, 8, 18, 8, 6]) {
             0 => {
                 let text = gen_text(&mut r, last.as_ref());
                 last = Some(text.clone());
                 ops.push(POp::Set { f: r.usize_below(nfiles), text });
             }
             1 => ops.push(POp::Remove { f: r.usize_below(nfiles) }),
-            _ => ops.push(POp::Config { v: r.below(8) as u32 }),
+            2 => {
+                ops.push(POp::Config { v: r.below(12) as u32 });
+                // the server re-sets every file after a configuration change; half of the time
+                // the history does the same, sometimes only for one file
+                match r.below(4) {
+                    0 | 1 => ops.push(POp::ReloadAll),
+                    2 => ops.push(POp::Resubmit { f: r.usize_below(nfiles) }),
+                    _ => {}
+                }
+            }
+            3 => ops.push(POp::Resubmit { f: r.usize_below(nfiles) }),
+            _ => ops.push(POp::ReloadAll),
         }
     }
     ParseSpec { seed, nfiles, ops }
 }
 
 fn emmyrc_variant(v: u32) -> Emmyrc {
-    let j = match v % 8 {
+    let j = match v % 12 {
         0 => json!({}),
         1 => json!({"runtime": {"version": "Lua5.1"}}),
         2 => json!({"runtime": {"version": "Lua5.3"}}),
@@ -138,6 +158,11 @@ fn emmyrc_variant(v: u32) -> Emmyrc {
         4 => json!({"runtime": {"version": "Lua5.4", "nonstandardSymbol": ["//", "/**/", "+=", "continue", "?.", "??"]}}),
         5 => json!({"runtime": {"version": "Lua5.2", "requireLikeFunction": ["import"]}}),
         6 => json!({"runtime": {"version": "Lua5.5"}}),
+        // same language level as variant 0, only the parser-relevant function tables / symbols differ
+        8 => json!({"runtime": {"requireLikeFunction": ["import"]}}),
+        9 => json!({"runtime": {"special": {"check": "assert", "import": "require"}}}),
+        10 => json!({"runtime": {"nonstandardSymbol": ["+="]}}),
+        11 => json!({"runtime": {"special": {"check": "error"}}}),
         _ => json!({"runtime": {"nonstandardSymbol": ["continue", "+=", "||", "&&", "!"]}}),
     };
     serde_json::from_value(j).unwrap_or_default()
@@ -185,6 +210,33 @@ fn judge(spec: &ParseSpec) -> (Vec<(String, String)>, String, BTreeMap<String, u
                 cfg_v = *v;
                 analysis.update_config(Arc::new(emmyrc_variant(cfg_v)));
                 *counters.entry("op.config".into()).or_insert(0) += 1;
+            }
+            POp::Resubmit { f } => {
+                if *f >= spec.nfiles {
+                    continue;
+                }
+                let Some((text, old_v)) = model[*f].clone() else { continue };
+                let uri = file_path_to_uri(&root.join(format!("f{f}.lua"))).unwrap();
+                analysis.update_file_by_uri(&uri, Some(text.clone()));
+                if old_v != cfg_v {
+                    *counters.entry("probe.identical_text_set_again_under_another_config".into()).or_insert(0) += 1;
+                }
+                model[*f] = Some((text, cfg_v));
+                *counters.entry("op.resubmit".into()).or_insert(0) += 1;
+            }
+            POp::ReloadAll => {
+                let mut list = Vec::new();
+                for f in 0..spec.nfiles {
+                    if let Some((text, old_v)) = model[f].clone() {
+                        if old_v != cfg_v {
+                            *counters.entry("probe.identical_text_set_again_under_another_config".into()).or_insert(0) += 1;
+                        }
+                        list.push((file_path_to_uri(&root.join(format!("f{f}.lua"))).unwrap(), Some(text.clone())));
+                        model[f] = Some((text, cfg_v));
+                    }
+                }
+                analysis.update_files_by_uri(list);
+                *counters.entry("op.reload_all".into()).or_insert(0) += 1;
             }
         }
         // every file currently in the VFS equals a fresh standalone parse
